@@ -5,7 +5,10 @@
 (* stepped Pattern / find_all) on inputs TLC did not choose.  Each event   *)
 (* is checked against Regex.tla; every event is consumed, a rejected one   *)
 (* prints  <<"REJECT", id, clause>>  naming the first failing conjunct.    *)
-(*  kind "matchers": re, w, match, nfa, sw, alive[k], acc[k] (per prefix)  *)
+(*  kind "matchers": re, w, match, nfa, sw, alive[k], acc[k] (per prefix),  *)
+(*                   shared = <<match, nfa_match, starts_with>> asked of a  *)
+(*                   pattern whose sub-patterns are OBJECTS shared with the *)
+(*                   patterns of earlier calls (a pattern is a value)       *)
 (*  kind "search"  : re, w, ms = <<<<start, end>>..>>, toks[i] = recorded  *)
 (*  exc # ""       : the call raised / timed out - no action accepts that  *)
 (***************************************************************************)
@@ -22,6 +25,7 @@ MatchersClause(c) ==
     [] c.match # InL(c.re, c.w) -> "MatchIsMembership"
     [] c.nfa # InL(c.re, c.w) -> "NfaMatchIsMembership"
     [] c.sw # ShortestPrefix(c.re, c.w) -> "StartsWithIsShortestPrefix"
+    [] c.shared # <<InL(c.re, c.w), InL(c.re, c.w), ShortestPrefix(c.re, c.w)>> -> "SharedSubPatterns"
     [] \E k \in 1..Len(c.alive) : c.alive[k] # Viable(c.re, Prefix(c.w, k)) -> "PatternAliveIsViable"
     [] \E k \in 1..Len(c.acc) : c.alive[k] /\ c.acc[k] # InL(c.re, Prefix(c.w, k)) -> "PatternAcceptingIsMembership"
     [] OTHER -> "none"
